@@ -8,10 +8,20 @@
       the value [load_full] returned ([C16_replace_releases_old]).
     With C03 (load_full returns a value stored during the call) this gives "never a value that
     was never stored" and, with the coherence of the compared location, monotonicity.
-    NOT yet proved as theorems over all schedules (partial): monotonicity and freshness of the
-    sequence of values returned by one cache (needs the history invariant of C03 and a view
-    model for the Relaxed comparison read); both are checked by the correspondence oracle. *)
-From ASModel Require Import Base State Orderings_gen Step Run Progress Hist.
+    The Relaxed comparison read is modelled sequentially consistent (orderings: C07); MapCache is not modelled. 
+    OVER ALL SCHEDULES ([ASModel.LinCache], instrumented runs as for C03): [C16_cache_linearizable] -
+    a completed [Cache::new] / [Cache::load] (command number i of thread t, started at position pa of
+    the schedule, completed at pb) leaves in the cache a value v that the underlying container stored
+    in one of the states between the call and the return: on the hit path the instant is the peek (the
+    storage equals the cached address then), on the miss path the linearization instant of the inner
+    load_full; hence never a value that was never stored, and at least as new as every store completed
+    before the call.  Hypotheses: no [set_generation] in the programs, no generation counter within 4
+    of wrapping, and no thread faults in the run (the invariant that proves fault freedom, C01, does
+    not cover Cache commands, so this stays a hypothesis here).  Successive loads of one cache are
+    monotone: their instants are strictly ordered ([cache_loads_monotone] in LinCache.v).
+*)
+From ASModel Require Import Base State Orderings_gen Step Run Progress Hist Inv InvTl InvProto InvStep Sum StepCases.
+From ASModel Require Import GenDefs Gen1 Gen2 Gen EnvDefs Env4 Env LinDefs Lin2 Lin LinCache.
 
 Theorem C16_revalidate :
   forall cf s l c a k x,
@@ -31,5 +41,25 @@ Theorem C16_replace_releases_old :
     if a =? 0 then (l, NRet (ROwned a')) else (l, NGoto (PDec a (ROwned a'))).
 Proof. reflexivity. Qed.
 
+Theorem C16_cache_linearizable : forall cf inits progs sched t i cm c k pa pb xa tb xb,
+  let s0 := init_state inits progs in
+  (forall p, In p progs -> forall g, ~ In (CSetGen g) p) ->
+  (forall j, GenBound (run_state cf s0 (firstn j sched))) ->
+  NoFault (run_state cf s0 sched) ->
+  nth_error (t_prog (thr s0 t)) (N.to_nat i) = Some cm ->
+  cache_cmd_of (run_state cf s0 (firstn pa sched)) cm c k ->
+  (pa <= pb)%nat ->
+  nth_error sched pa = Some (t, xa) ->
+  t_status (thr (run_state cf s0 (firstn pa sched)) t) = Running ->
+  t_stack (thr (run_state cf s0 (firstn pa sched)) t) = [] ->
+  t_cmdi (thr (run_state cf s0 (firstn pa sched)) t) = i ->
+  nth_error sched pb = Some (tb, xb) ->
+  t_cmdi (thr (run_state cf s0 (firstn pb sched)) t) = i ->
+  t_cmdi (thr (run_state cf s0 (firstn (S pb) sched)) t) = i + 1 ->
+  exists v, hnd (run_state cf s0 (firstn (S pb) sched)) k = HCache c v /\
+    exists j, (pa + 1 <= j <= pb + 1)%nat /\ mem (sh (run_state cf s0 (firstn j sched))) (LStore c) = v.
+Proof. exact cache_linearizable_bound. Qed.
+
 Print Assumptions C16_revalidate.
 Print Assumptions C16_replace_releases_old.
+Print Assumptions C16_cache_linearizable.
